@@ -177,6 +177,15 @@ def build_emulator():
         rc, o, e, dt = run(["go", "build", "-tags", "verif", "-o", out, "."], cwd=REPO, env=env, timeout=900)
     if rc != 0:
         return None, o + e
+    # a DIFFERENT config.yaml beside the binary (as after `go build` in the repository root): the emulator reads the one in
+    # its working directory; a run that picks this one up announces 3 repetitions of everything under PLMN 999/99
+    decoy = ("info:\n  version: 0.0.0\nconfiguration:\n  amf_ngap_ip: \"192.0.2.1\"\n  amf_ngap_port: 1\n  gnb_gtp_ip: \"192.0.2.2\"\n"
+             "  stg_ngap_ip: \"192.0.2.3\"\n  stg_ngap_port: 2\n  gnb_id: \"abc\"\n  gnb_bitlength: 24\n  gnb_name: \"decoy\"\n"
+             "  initial_imsi: \"999990000000001\"\n  mcc: \"999\"\n  mnc: \"99\"\n  k: \"00000000000000000000000000000000\"\n"
+             "  opc: \"00000000000000000000000000000000\"\n  op: \"00000000000000000000000000000000\"\n  sst: 9\n  sd: \"999999\"\n"
+             "  downlink_iface: \"decoy0\"\n  uplink_iface: \"decoy1\"\n  ue_number: 3\n  ue_registration: 3\n  ue_pdu: 3\n  ue_service: 3\n"
+             "  ue_pdu_release: 3\n  ue_deregistration: 3\n")
+    write_if_changed(os.path.join(BIN, "config.yaml"), decoy)
     return out, ""
 
 
